@@ -334,6 +334,8 @@ ATTACKS = {
     # an attribute of a Python object
     "helper_indexed_with_tostring_table": "local k = setmetatable({}, {__tostring = function() return '__globals__' end}); local ok, g = pcall(function() return mw_python_get_page_info[k] end); local k2 = setmetatable({}, {__tostring = function() return '__closure__' end}); local ok2, c = pcall(function() return frame.preprocess[k2] end); return ((ok and g ~= nil) or (ok2 and c ~= nil)) and 'GOT attribute through a non-string key' or 'no'",
     "helper_indexed_with_number_or_boolean": "local hit = false; for _, k in ipairs({1, 0, -1, 1.5}) do local ok, v = pcall(function() return mw_python_get_page_info[k] end); if ok and v ~= nil then hit = true end end; local ok3, v3 = pcall(function() return mw_python_get_page_info[true] end); if ok3 and v3 ~= nil then hit = true end; return hit and 'GOT value through a numeric/boolean key' or 'no'",
+    # a precompiled chunk behind something a lenient loader might skip (byte order mark, blank, newline, a '#' line)
+    "bytecode_page_behind_a_prefix": "local hit = nil for _, n in ipairs({'Module:bcbom', 'Module:bcblank', 'Module:bcnl', 'Module:bchash'}) do local ok, r = pcall(require, n) if ok and r == 'RAN-FROM-BYTECODE' then hit = n end end return hit and ('GOT precompiled chunk executed from ' .. hit) or 'no'",
     "string_dump_available": "return (string.dump ~= nil) and 'GOT string.dump' or 'no'",
     "python_exception_object": "local ok, e = pcall(mw_python_get_page_content); return (not ok and type(e) ~= 'string') and ('GOT error value of type ' .. type(e)) or 'no'",
     "python_exception_object_xpcall": "local seen; xpcall(function() mw_python_get_page_content() end, function(e) seen = type(e) return e end); return (seen ~= nil and seen ~= 'string') and ('GOT handler sees ' .. seen) or 'no'",
@@ -453,6 +455,8 @@ def run_attacks(after_another_context=False, silent_pages=False):
     ctx.add_page("Module:warm", 828, "local e = {} function e.f(frame) return 'w' end return e", model="Scribunto")
     ctx.add_page("Module:bcpage", 828, lua51_chunk("RAN-FROM-BYTECODE"), model="Scribunto")
     ctx.add_page("Module:bcpage2", 828, lua51_chunk("RAN-FROM-BYTECODE"), model="Scribunto")
+    for nm, pre in (("bcbom", "\ufeff"), ("bcblank", " "), ("bcnl", "\n"), ("bchash", "#!lua\n")):
+        ctx.add_page("Module:" + nm, 828, pre + lua51_chunk("RAN-FROM-BYTECODE"), model="Scribunto")
     if silent_pages:
         # the page store holds modules named like the host libraries that return nothing (or nil, or false): require() of
         # such a name must still not hand out the host library
